@@ -433,7 +433,7 @@ func TestMutatedFileSets(t *testing.T) {
 // ---- listed conditions: exact limits and references ----------------------------------------------------------------
 
 func TestLimitsAndReferences(t *testing.T) {
-	ev.Rule(chkLimits, "rapid: a valid file set, then exactly one listed condition: one per-type file-size limit set to the file's compressed size (must accept) and size-1 (must reject) with all other limits huge, the file read from the primary CAS or (one in two) served by an alternate source after a failed primary read; the decompression limit (per-type limit x factor, factor drawn from 1, 2, 3, 4, 7) hit exactly by the decompressed size (accept) or exceeded by 1..factor bytes (reject) using whitespace padding (in the same gzip member or, one time in three, in a second member of the file); each referenced file in turn re-hosted under a longer URI with maxCasUriLength set to that length (accept) and one less (reject); a proof / chunk reference removed where required or added where superfluous; one entry dropped from / added to an index, proof or delta array so that counts disagree; a suffix repeated across sections; oracle: must-reject cases are rejected, must-accept cases read back; non-trivial = every case")
+	ev.Rule(chkLimits, "rapid: a valid file set, then exactly one listed condition: one per-type file-size limit set to the file's compressed size (must accept) and size-1 (must reject) with all other limits huge, the file read from the primary CAS or (one in two) served by an alternate source after a failed primary read; the decompression limit (per-type limit x factor, factor drawn from 1, 2, 3, 4, 7) hit exactly by the decompressed size (accept) or exceeded by 1..factor bytes (reject) using whitespace padding (in the same gzip member or, one time in three, in a second member of the file); each referenced file in turn (the core index file named by the anchor string included) re-hosted under a longer URI with maxCasUriLength set to that length (accept) and one less (reject); a proof / chunk reference removed where required (also: a chunk entry without URI while the CAS answers for the empty address; the provisional index reference removed although create / recover operations are listed) or added where superfluous (also: a second chunk entry); one entry dropped from / added to an index, proof or delta array so that counts disagree; a suffix repeated across sections; oracle: must-reject cases are rejected, must-accept cases read back; non-trivial = every case")
 	ev.Rapid(t, chkLimits, 600, 8000, func(t *rapid.T) {
 		fs := buildSet(t)
 		var present []string
@@ -560,19 +560,19 @@ func TestLimitsAndReferences(t *testing.T) {
 		case "uri-length":
 			// one reference at a time: the referenced file is re-hosted under a longer address, so that only the
 			// length check of that very reference can reject it
-			var refs []string
+			// (the core index file is referenced by the anchor string itself)
+			refs := []string{"coreIndex"}
 			for _, r := range roles[1:] {
 				if fs.addr[r] != "" {
 					refs = append(refs, r)
 				}
 			}
-			if len(refs) == 0 {
-				t.Skip("no referenced URI")
-			}
 			role := rapid.SampledFrom(refs).Draw(t, "reference")
 			long := fs.addr[role] + strings.Repeat("x", rapid.IntRange(1, 9).Draw(t, "extraLen"))
 			c.Files[long] = c.Files[fs.addr[role]]
 			switch role {
+			case "coreIndex":
+				c.Anchor = strings.Replace(c.Anchor, fs.addr["coreIndex"], long, 1)
 			case "coreProof":
 				fs.json["coreIndex"]["coreProofFileUri"] = long
 				fs.put(c, "coreIndex", 0)
@@ -604,6 +604,9 @@ func TestLimitsAndReferences(t *testing.T) {
 			if fs.addr["chunk"] != "" {
 				opts = append(opts, "chunk")
 			}
+			if fs.addr["provIndex"] != "" && len(arr(fs.json["coreIndex"], "operations", "create"))+len(arr(fs.json["coreIndex"], "operations", "recover")) > 0 {
+				opts = append(opts, "provIndex")
+			}
 			if len(opts) == 0 {
 				t.Skip("nothing referenced")
 			}
@@ -616,11 +619,25 @@ func TestLimitsAndReferences(t *testing.T) {
 				delete(fs.json["provIndex"], "provisionalProofFileUri")
 				fs.put(c, "provIndex", 0)
 				c.Note = "provisionalProofFileUri removed although update operations are referenced"
+			case "provIndex":
+				delete(fs.json["coreIndex"], "provisionalIndexFileUri")
+				fs.put(c, "coreIndex", 0)
+				c.Note = "provisionalIndexFileUri removed although create / recover operations (whose deltas live in the chunk file) are referenced"
+				if nd := len(arr(fs.json["coreIndex"], "operations", "deactivate")); nd > 0 && rapid.Bool().Draw(t, "anchorCountsDeactivatesOnly") {
+					// the anchor string's count covers just the operations that can still be assembled without a chunk file
+					c.Anchor = fmt.Sprintf("%d.%s", nd, fs.addr["coreIndex"])
+					c.Note += "; anchor string counts the deactivate operations only"
+				}
 			default:
-				if rapid.Bool().Draw(t, "emptyList") {
+				switch rapid.IntRange(0, 4).Draw(t, "chunkRefShape") {
+				case 0:
 					fs.json["provIndex"]["chunks"] = []interface{}{}
-				} else {
+				case 1:
 					delete(fs.json["provIndex"], "chunks")
+				default:
+					// an entry that carries no URI; the (adversarial) CAS even answers for the empty address
+					fs.json["provIndex"]["chunks"] = []interface{}{rapid.SampledFrom([]interface{}{map[string]interface{}{}, nil, map[string]interface{}{"chunkFileUri": ""}, map[string]interface{}{"chunkFileUri": nil}}).Draw(t, "emptyChunkEntry")}
+					c.Files[""] = c.Files[fs.addr["chunk"]]
 				}
 				fs.put(c, "provIndex", 0)
 				c.Note = "chunk reference removed"
@@ -637,10 +654,16 @@ func TestLimitsAndReferences(t *testing.T) {
 				fs.json["provIndex"]["provisionalProofFileUri"] = fs.addr["coreProof"]
 				fs.put(c, "provIndex", 0)
 				c.Note = "provisionalProofFileUri added although no update operation is referenced"
+			case fs.addr["chunk"] != "":
+				// a second chunk entry (this protocol version reads exactly one chunk file)
+				second := rapid.SampledFrom([]string{fs.addr["chunk"], fs.addr["coreIndex"], "no-such-address", strings.Repeat("z", 300)}).Draw(t, "secondChunk")
+				fs.json["provIndex"]["chunks"] = []interface{}{map[string]interface{}{"chunkFileUri": fs.addr["chunk"]}, map[string]interface{}{"chunkFileUri": second}}
+				fs.put(c, "provIndex", 0)
+				c.Note = "a second chunk reference added"
 			default:
 				t.Skip("no place for a superfluous reference")
 			}
-			c.MustReject = "a superfluous proof reference"
+			c.MustReject = "a superfluous proof / chunk reference"
 		case "count-mismatch":
 			type site struct {
 				role string
